@@ -106,12 +106,36 @@ def _lm_case(draw, tier, dense=False):
                   st.tuples(st.just(n), st.integers(0, 40), st.integers(0, Tmax))),
         min_size=B, max_size=B))
     idx = draw(st.lists(st.integers(0, T), min_size=B, max_size=B))
-    # how the (T, B) history tensor sits in memory: its own contiguous storage, a row slice of a larger
-    # tensor (non-zero storage offset), or the transpose of a (B, T) tensor (non-contiguous)
-    layout = draw(st.sampled_from(["contiguous", "offset_view", "transposed", "contiguous", "offset_view"]))
-    return {"V": V, "sos": sos, "tables": tables, "hist": hist, "idx": idx,
-            "follow": [None if f is None else list(f) for f in follow], "layout": layout,
-            "junk_rows": draw(st.integers(1, 3))}
+    case = {"V": V, "sos": sos, "tables": tables, "hist": hist, "idx": idx,
+            "follow": [None if f is None else list(f) for f in follow]}
+    case.update(draw(_variants()))
+    return case
+
+
+HIST_LAYOUTS = ["contiguous", "offset_view", "transposed", "column_slice", "strided_rows", "expanded"]
+IDX_LAYOUTS = ["own", "offset", "strided"]
+CALL_FLAGS = ["train_mode", "warm_other_batch", "shared_prev", "dicts_reused", "reload_into_used_instance"]
+
+
+@st.composite
+def _variants(draw):
+    """How the case is presented to the library; none of it changes the expected numbers.
+
+    layout / idx_layout: how the (T, B) history and the (B,) index vector sit in memory (own contiguous
+    storage, slices of larger tensors, transposed / strided non-contiguous views, a stride-0 expansion
+    of one history).  garbage: ids written over the positions a query with an index must not look at.
+    scale_exp: every finite table value is multiplied by 2**scale_exp.  calls: call patterns."""
+    garbage = draw(st.sampled_from([None, None, "past_idx", "before_window", "both"]))
+    return {
+        "layout": draw(st.sampled_from(HIST_LAYOUTS + ["contiguous", "offset_view"])),
+        "junk_rows": draw(st.integers(1, 3)),
+        "idx_layout": draw(st.sampled_from(IDX_LAYOUTS)),
+        "garbage": garbage,
+        "garbage_ids": draw(st.lists(st.sampled_from([-7, -1, 255, 256, 65535, 65536, 2 ** 31, 2 ** 40, -2 ** 40,
+                                                      "V", "V+1", "V+5", "sos"]), min_size=1, max_size=4)),
+        "scale_exp": draw(st.sampled_from([0, 0, 0, 0, 7, 30, 100, -30, -100])),
+        "calls": sorted(set(draw(st.lists(st.sampled_from(CALL_FLAGS), max_size=2)))),
+    }
 
 
 def _lm_strategy(tier):
@@ -157,97 +181,241 @@ def _history(case, tables):
     return hist_b
 
 
-def _same(obs, exp):
-    if math.isnan(obs):
-        return False
-    return obs == exp
+def _compare(what, obs, exp):
+    """obs: tensor; exp: float64 ndarray of the same shape.  Exact, -inf aware, NaN never equal."""
+    import numpy as np
+
+    require(list(obs.shape) == list(exp.shape), what + ": shape", list(obs.shape), list(exp.shape))
+    o = obs.detach().double().numpy()
+    bad = np.argwhere(~(o == exp))
+    if len(bad):
+        i = tuple(int(x) for x in bad[0])
+        small = o.size <= 400
+        require(False, "%s: value at %r differs from the back-off recursion" % (what, i),
+                o.tolist() if small else float(o[i]), exp.tolist() if small else float(exp[i]))
 
 
-def _compare(what, obs_rows, exp_rows):
-    """obs_rows / exp_rows: nested lists of floats with identical structure."""
-    require(_shape(obs_rows) == _shape(exp_rows), what + ": shape", _shape(obs_rows), _shape(exp_rows))
-    flat_o, flat_e = _flat(obs_rows), _flat(exp_rows)
-    for i, (o, e) in enumerate(zip(flat_o, flat_e)):
-        if not _same(o, e):
-            require(False, "%s: value %d differs from the back-off recursion" % (what, i), obs_rows, exp_rows)
+def _hist_tensor(rows, layout, k, V):
+    """The (T, B) long tensor of the (B, T) nested list ``rows`` in the requested memory layout."""
+    import torch
+
+    B, T = len(rows), len(rows[0])
+    bt = torch.tensor(rows, dtype=torch.long).view(B, T)
+    tb = bt.t().contiguous()
+    if layout == "offset_view":       # rows k.. of a longer tensor: non-zero storage offset
+        junk = (torch.arange(k * B, dtype=torch.long).view(k, B) * 7 + 1) % V
+        return torch.cat([junk, tb, junk], 0)[k:k + T]
+    if layout == "transposed":        # the transpose of a (B, T) tensor: non-contiguous
+        return bt.t()
+    if layout == "column_slice":      # columns k.. of a wider tensor: non-contiguous with a storage offset
+        junk = (torch.arange(T * k, dtype=torch.long).view(T, k) * 5 + 2) % V
+        return torch.cat([junk, tb, junk], 1)[:, k:k + B]
+    if layout == "strided_rows":      # every second row of a tensor twice as long
+        junk = (tb * 3 + 1) % V
+        return torch.stack([tb, junk], 1).view(2 * T, B)[::2]
+    if layout == "expanded":          # one history shared by the whole batch: stride 0 along the batch
+        return tb[:, :1].expand(T, B)
+    return tb
 
 
-def _shape(x):
-    s = []
-    while isinstance(x, list):
-        s.append(len(x))
-        x = x[0] if x else None
-    return s
+def _idx_tensor(idx, layout):
+    import torch
+
+    t = torch.tensor(idx, dtype=torch.long)
+    if layout == "offset":
+        return torch.cat([torch.tensor([5, 0], dtype=torch.long), t, torch.tensor([0], dtype=torch.long)])[2:2 + len(idx)]
+    if layout == "strided":
+        return torch.stack([t, torch.zeros_like(t)], 1).view(-1)[::2]
+    return t
 
 
-def _flat(x):
-    if isinstance(x, list):
-        out = []
-        for y in x:
-            out.extend(_flat(y))
-        return out
-    return [x]
+def _junk_id(g, V, sos):
+    return {"V": V, "V+1": V + 1, "V+5": V + 5, "sos": sos}.get(g, g)
 
 
-def _lm_check(case):
+def _garbled(rows, idx_per_b, n, mode, junk):
+    """``rows`` with the positions a query at index idx_per_b[b] must ignore overwritten by junk ids:
+    "past_idx": t >= idx; "before_window": t < idx - (n - 1) (older than the n-1 tokens of the context)."""
+    out = [list(r) for r in rows]
+    for b, r in enumerate(out):
+        i = idx_per_b[b]
+        for t in range(len(r)):
+            if (mode in ("past_idx", "both") and t >= i) or (mode in ("before_window", "both") and t < i - (n - 1)):
+                r[t] = junk[(t + 2 * b) % len(junk)]
+    return out
+
+
+def _run_queries(case, V, sos, tables, hist_b, chunk_sizes, positions, idx, t_prefixes=(), b_prefixes=()):
+    """All query routes of the statement on one table and one batch of histories.
+
+    chunk_sizes / positions: which chunk sizes and which scalar indices are tried (the small sub-checks
+    pass all of them, the large ones a sample).  Returns (classes, trace)."""
+    import copy
+
+    import numpy as np
     import torch
     from pydrobert.torch.modules import LookupLanguageModel
 
-    V, sos = case["V"], case["sos"]
-    symbols = _symbols(V, sos)
-    tables = K.build_tables(case["tables"], symbols)
     n = len(tables)
-    if not tables[-1]:
-        raise Reject()
     katz = K.Katz(tables)
-    hist_b = _history(case, tables)
     B, T = len(hist_b), len(hist_b[0])
     trace = set()
-    # exp[s][b][w]
-    exp = [[katz.next_token(hist_b[b][:s], sos, V, trace) for b in range(B)] for s in range(T + 1)]
-
-    lm = LookupLanguageModel(V, sos, prob_dicts=_prob_dicts(tables))
-    hist = torch.tensor(hist_b, dtype=torch.long).view(B, T).t().contiguous()  # (T, B)
+    exp = np.array([[katz.next_token(hist_b[b][:s], sos, V, trace) for b in range(B)] for s in range(T + 1)],
+                   dtype=np.float64).reshape(T + 1, B, V)
     layout = case.get("layout", "contiguous")
-    if layout == "offset_view":
-        k = case.get("junk_rows", 1)
-        junk = (torch.arange(k * B, dtype=torch.long).view(k, B) * 7 + 1) % V
-        hist = torch.cat([junk, hist, junk], 0)[k:k + T]
-    elif layout == "transposed":
-        hist = torch.tensor(hist_b, dtype=torch.long).view(B, T).t()
+    k = case.get("junk_rows", 1)
+    calls = set(case.get("calls") or [])
+    classes = ["hist_" + layout]
 
+    dicts = _prob_dicts(tables)
+    if "dicts_reused" in calls:
+        # the same dictionaries given to two constructions (destructive=False: they must not be touched)
+        before = copy.deepcopy(dicts)
+        LookupLanguageModel(V, sos, prob_dicts=dicts)
+        require(dicts == before, "prob_dicts modified by LookupLanguageModel(..., destructive=False)", None, None)
+        classes.append("dicts_reused")
+    lm = LookupLanguageModel(V, sos, prob_dicts=dicts)
+    if "train_mode" in calls:
+        lm.train()
+        classes.append("train_mode")
+    else:
+        lm.eval()
+    hist = _hist_tensor(hist_b, layout, k, V)
+    prev = dict()
+    fresh_prev = (lambda: prev) if "shared_prev" in calls else dict
+    if "shared_prev" in calls:
+        classes.append("shared_prev")
+    light = T > 300     # long sequences: one position-by-position pass only, the others in chunks
+    if "warm_other_batch" in calls:
+        # the module has already answered for a batch of another shape
+        To, Bo = min(T, 30) + 2, min(B, 30) + 1
+        other = torch.tensor([[(3 * t + b) % V for b in range(Bo)] for t in range(To)], dtype=torch.long).view(To, Bo)
+        lm(other)
+        lm(other, idx=torch.tensor([(b * 2) % (To + 1) for b in range(Bo)], dtype=torch.long))
+        lm.calc_full_log_probs_chunked(other, dict(), 3)
+        classes.append("warm_other_batch")
+
+    keep = hist.clone()
     # all positions at once
-    full = lm(hist)
-    _compare("lm(hist)", full.tolist(), exp)
-    # chunks of every size
-    for c in range(1, T + 3):
-        got = lm.calc_full_log_probs_chunked(hist, dict(), c)
-        _compare("calc_full_log_probs_chunked(chunk_size=%d)" % c, got.tolist(), exp)
+    _compare("lm(hist)", lm(hist, fresh_prev()), exp)
+    # chunks
+    for c in chunk_sizes:
+        got = lm.calc_full_log_probs_chunked(hist, fresh_prev(), c)
+        _compare("calc_full_log_probs_chunked(chunk_size=%d)" % c, got, exp)
     # one index at a time (non-negative and the equivalent negative index)
-    for s in range(T + 1):
-        got, _ = lm(hist, idx=s)
-        _compare("lm(hist, idx=%d)" % s, got.tolist(), exp[s])
-        got, _ = lm(hist, idx=s - T - 1)
-        _compare("lm(hist, idx=%d)" % (s - T - 1), got.tolist(), exp[s])
+    mode = case.get("garbage")
+    junk = [_junk_id(g, V, sos) for g in (case.get("garbage_ids") or ["V+5"])]
+    for s in positions:
+        got, _ = lm(hist, fresh_prev(), idx=s)
+        _compare("lm(hist, idx=%d)" % s, got, exp[s])
+        got, _ = lm(hist, fresh_prev(), idx=s - T - 1)
+        _compare("lm(hist, idx=%d)" % (s - T - 1), got, exp[s])
+        if mode and layout != "expanded":
+            hg = _hist_tensor(_garbled(hist_b, [s] * B, n, mode, junk), layout, k, V)
+            got, _ = lm(hg, fresh_prev(), idx=s)
+            _compare("lm(hist, idx=%d) with junk ids at the positions outside the context (%s)" % (s, mode), got, exp[s])
     # a different index per batch element
-    idx = [int(i) % (T + 1) for i in case["idx"]]
-    exp_vec = [exp[idx[b]][b] for b in range(B)]
-    got, _ = lm(hist, idx=torch.tensor(idx, dtype=torch.long))
-    _compare("lm(hist, idx=%r)" % (idx,), got.tolist(), exp_vec)
-    # save, load into a freshly constructed instance
+    exp_vec = exp[idx, list(range(B))]
+    idx_layout = case.get("idx_layout", "own")
+    idx_t = _idx_tensor(idx, idx_layout)
+    classes.append("idx_" + idx_layout)
+    got, _ = lm(hist, fresh_prev(), idx=idx_t)
+    _compare("lm(hist, idx=%r)" % (idx[:8],), got, exp_vec)
+    if mode and layout != "expanded":
+        g_rows = _garbled(hist_b, idx, n, mode, junk)
+        if g_rows != hist_b:
+            hg = _hist_tensor(g_rows, layout, k, V)
+            got, _ = lm(hg, fresh_prev(), idx=idx_t)
+            _compare("lm(hist, idx=%r) with junk ids at the positions outside the contexts (%s)" % (idx[:8], mode),
+                     got, exp_vec)
+            if mode in ("past_idx", "both") and any(i < T for i in idx):
+                classes.append("garbage_past_idx")
+            if mode in ("before_window", "both") and any(i - (n - 1) > 0 for i in idx):
+                classes.append("garbage_before_window")
+    # shorter sequences / smaller batches: prefixes of the same batch (views of the same tensor)
+    for j, Tp in enumerate(t_prefixes):
+        h, e = hist[:Tp], exp[:Tp + 1]
+        c = chunk_sizes[j % len(chunk_sizes)]
+        _compare("calc_full_log_probs_chunked(hist[:%d], chunk_size=%d)" % (Tp, c),
+                 lm.calc_full_log_probs_chunked(h, fresh_prev(), c), e)
+        if Tp <= 300:
+            _compare("lm(hist[:%d])" % Tp, lm(h, fresh_prev()), e)
+        ip = [i % (Tp + 1) for i in idx]
+        got, _ = lm(h, fresh_prev(), idx=_idx_tensor(ip, idx_layout))
+        _compare("lm(hist[:%d], idx=%r)" % (Tp, ip[:8]), got, exp[ip, list(range(B))])
+    for j, Bp in enumerate(b_prefixes):
+        h, e = hist[:, :Bp], exp[:, :Bp]
+        _compare("lm(hist[:, :%d])" % Bp, lm(h, fresh_prev()), e)
+        c = chunk_sizes[j % len(chunk_sizes)]
+        _compare("calc_full_log_probs_chunked(hist[:, :%d], chunk_size=%d)" % (Bp, c),
+                 lm.calc_full_log_probs_chunked(h, fresh_prev(), c), e)
+        got, _ = lm(h, fresh_prev(), idx=_idx_tensor(idx[:Bp], idx_layout))
+        _compare("lm(hist[:, :%d], idx=%r)" % (Bp, idx[:8]), got, exp_vec[:Bp])
+    # save, load into a freshly constructed instance (or, as the docs allow, into one that held another table)
     buf = io.BytesIO()
     torch.save(lm.state_dict(), buf)
     buf.seek(0)
-    fresh = LookupLanguageModel(V, sos)
+    if "reload_into_used_instance" in calls:
+        # (two n-grams under the last unigram node: never in the class of ENABLE_OFFSET_WIDTH_EDGE)
+        w = V - 1
+        if n == 2:
+            other_dicts = [{0: (-0.5, -0.25)}, {(0, w): (-1.0, 0.5), (w, w): (-1.0, 0.5)}, {(0, 0, w): -1.5, (w, 0, w): -2.5}]
+        else:
+            other_dicts = [{0: (-0.5, -0.25)}, {(0, w): -1.0, (w, w): -2.0}]
+        fresh = LookupLanguageModel(V, sos, prob_dicts=other_dicts)
+        classes.append("reload_into_used_instance")
+    else:
+        fresh = LookupLanguageModel(V, sos)
     fresh.load_state_dict(torch.load(buf))
-    _compare("reloaded lm(hist)", fresh(hist).tolist(), exp)
-    got, _ = fresh(hist, idx=torch.tensor(idx, dtype=torch.long))
-    _compare("reloaded lm(hist, idx=%r)" % (idx,), got.tolist(), exp_vec)
-    got = fresh.calc_full_log_probs_chunked(hist, dict(), 2)
-    _compare("reloaded calc_full_log_probs_chunked(chunk_size=2)", got.tolist(), exp)
+    fresh.train("train_mode" in calls)
+    if not light:
+        _compare("reloaded lm(hist)", fresh(hist), exp)
+    got, _ = fresh(hist, idx=idx_t)
+    _compare("reloaded lm(hist, idx=%r)" % (idx[:8],), got, exp_vec)
+    c = chunk_sizes[len(chunk_sizes) // 2] if chunk_sizes else 2
+    got = fresh.calc_full_log_probs_chunked(hist, dict(), c)
+    _compare("reloaded calc_full_log_probs_chunked(chunk_size=%d)" % c, got, exp)
+    # the first model still answers the same after all of the above
+    if light:
+        _compare("calc_full_log_probs_chunked(chunk_size=%d) asked again" % c,
+                 lm.calc_full_log_probs_chunked(hist, fresh_prev(), c), exp)
+    else:
+        _compare("lm(hist) asked again", lm(hist, fresh_prev()), exp)
+    require(bool((hist == keep).all()), "the history tensor was modified", None, None)
+    require(prev == dict() or "shared_prev" in calls, "prev", None, None)
 
-    classes = ["order_%d" % n, "sos_in_vocab" if 0 <= sos < V else "sos_out_of_vocab", "hist_" + layout]
     classes += sorted(t for t in trace if not t.startswith("hit_") or t == "hit_top")
+    if lm.offsets.numel():
+        classes.append("offsets_" + str(lm.offsets.dtype).replace("torch.", ""))
+        classes.append("ids_" + str(lm.ids.dtype).replace("torch.", ""))
+        if lm.offsets.dtype != torch.uint8:
+            classes.append("offsets_wider_than_8_bit")
+    return classes, trace
+
+
+def _lm_check(case):
+    V, sos = case["V"], case["sos"]
+    symbols = _symbols(V, sos)
+    scale_exp = case.get("scale_exp", 0)
+    tables = K.build_tables(case["tables"], symbols, 2.0 ** scale_exp)
+    n = len(tables)
+    if not tables[-1]:
+        raise Reject()
+    edge = _offset_width_edge(tables, V, sos)
+    if edge and not ENABLE_OFFSET_WIDTH_EDGE:
+        raise Reject()
+    hist_b = _history(case, tables)
+    if case.get("layout") == "expanded":
+        hist_b = [list(hist_b[0]) for _ in hist_b]
+    B, T = len(hist_b), len(hist_b[0])
+    idx = [int(i) % (T + 1) for i in case["idx"]]
+    classes, trace = _run_queries(case, V, sos, tables, hist_b, list(range(1, T + 3)), list(range(T + 1)), idx)
+
+    classes += ["order_%d" % n, "sos_in_vocab" if 0 <= sos < V else "sos_out_of_vocab"]
+    if scale_exp:
+        classes.append("values_scaled_up" if scale_exp > 0 else "values_scaled_down")
+    if edge:
+        classes.append("offset_width_edge")
     if T == 0:
         classes.append("empty_history")
     if len(set(idx)) > 1:
@@ -256,8 +424,6 @@ def _lm_check(case):
         classes.append("oov_sos_in_context")
     if any(sos in h for h in hist_b) and not (0 <= sos < V):
         classes.append("explicit_oov_sos_in_history")
-    if lm.offsets.numel() and lm.offsets.dtype != torch.uint8:
-        classes.append("offsets_wider_than_8_bit")
     sizes = K.level_sizes(tables)
     if n >= 3:
         sizes[0] = len(symbols)
@@ -277,19 +443,327 @@ def _lm_check(case):
 
 subcheck("C06", "katz", _lm_strategy, 700, 20000,
          doc="sparse tables of order 1..4 over V<=4 (+sos), histories T<=6, B<=4: full / every chunk size / every "
-             "scalar idx / per-element idx / reloaded == dictionary back-off recursion (exact, dyadic values)",
+             "scalar idx / per-element idx / reloaded == dictionary back-off recursion (exact, dyadic values); "
+             "history and idx in several memory layouts, junk ids outside the context of an idx query, values "
+             "scaled by 2^k, call patterns (train mode, earlier batch of another shape, dictionaries reused, "
+             "state loaded into a used instance)",
          required_classes=["missing_entry", "hit_top", "ctx_absent", "sos_out_of_vocab", "missing_suffix",
-                           "oov_sos_in_context", "listed_neginf"])(_lm_check)
+                           "oov_sos_in_context", "listed_neginf",
+                           "hist_offset_view", "hist_transposed", "hist_column_slice", "hist_strided_rows",
+                           "hist_expanded", "idx_offset", "idx_strided", "garbage_past_idx", "garbage_before_window",
+                           "values_scaled_up", "values_scaled_down", "train_mode", "warm_other_batch",
+                           "dicts_reused", "reload_into_used_instance"])(_lm_check)
 
 subcheck("C06", "katz_dense", _dense_strategy, 120, 2500,
          doc="nearly complete tables of order 2..4 (up to 1400 n-grams, offsets beyond 8 bits): same comparisons",
          required_classes=["offsets_wider_than_8_bit", "parent_index_beyond_255_with_8_bit_offsets"])(_lm_check)
 
 
+# ------------------------------------------------------------------ sizes across implementation thresholds
+
+# A unigram-only table over more than 256 ids cannot be constructed on this image (numpy 2:
+# `np.uint8(256)` raises OverflowError in _build_trie; fixes/C06-unigram-table-wide-vocabulary.diff,
+# replays/C06/unigram-table-over-256-ids.json).  Order-1 tables with a large vocabulary are generated
+# (and judged) only when this switch is on; turn it on once the fix is merged.
+ENABLE_UNIGRAM_WIDE_VOCAB = os.environ.get("VERIF_C06_PENDING", "") == "1"      # default: off
+
+# _build_trie chooses the integer width of the offset buffer from the bound S + T - 1 (S, T = number of
+# nodes of two consecutive levels), but the distance from the first node of a level to its first
+# descendant is S + 1 and the distance from the second node to the end of the next level is S + T when
+# every node of that level descends from the first one.  A table with S + T - 1 == 255 (or 32767) and
+# T == 1 or all descendants under the first node therefore raises while the buffer is filled
+# (fixes/C06-offset-width-bound.diff, replays/C06/offset-width-one-bigram-255-ids.json).  Such tables
+# are rejected / skipped until this switch is on; with it, the directed sizes "e1" (one bigram under
+# 255 - or 32767 - unigram nodes) and "e0" (256 - or 32768 - minus #unigrams bigrams, all ending in
+# the first symbol) are generated as well.
+ENABLE_OFFSET_WIDTH_EDGE = os.environ.get("VERIF_C06_PENDING", "") == "1"       # default: off
+
+SIZES = [15, 16, 17, 31, 32, 33, 63, 64, 65, 127, 128, 129, 255, 256, 257, 1023, 1024, 1025, 2049]
+KIND_SIZES = {
+    "T": SIZES, "B": SIZES, "V": SIZES[:-1],
+    "ids8": [252, 253, 254, 255, 256, 257, 258],        # the id buffer leaves uint8 at V + (sos outside) + 1 > 255
+    "ids16": [32765, 32766, 32767],                     # ... and int16 above 32767
+    "fan": [16, 17, 32, 33, 64, 65, 128, 129, 255, 256, 257],   # direct descendants of one trie node
+    # "a<d>": (#bigrams + #unigrams - 1) = limit + d, the bound from which the buffer's width is chosen while the
+    # trie is built; "f<d>": the largest offset actually stored = limit + d, which decides the final width
+    # (for 32767 the final width changes with the vocabulary sizes of ids16)
+    "offsets16": ["a-2", "a-1", "a+0", "a+1", "a+2", "f-1", "f+0", "f+1", "f+2"],
+    "offsets32": ["a-1", "a+0", "a+1", "a+2"],
+}
+
+
+def _max_offset(tables, V, sos):
+    """The largest value the offset buffer of the reverse trie holds (see the layout comment in _lm.py):
+    node i of a level with S nodes points S - i + 1 + (number of nodes of the next level that descend from
+    nodes before i) ahead; the dummy node at the end of the level points T + 1 ahead."""
+    n = len(tables)
+    mapped = lambda k: tuple(V if (t == sos and not 0 <= sos < V) else t for t in k)
+    keys = [set(mapped(k) for k in t) for t in tables]
+    for m in range(n - 1, 0, -1):
+        for k in keys[m]:
+            keys[m - 1].add(k[1:])
+    keys[0] = set((s,) for s in range(V + (0 if 0 <= sos < V else 1)))
+    best = 0
+    for m in range(1, n):
+        nodes = sorted(k[::-1] for k in keys[m - 1])
+        S, T = len(nodes), len(keys[m])
+        children = {}
+        for k in keys[m]:
+            par = k[1:][::-1]
+            children[par] = children.get(par, 0) + 1
+        before = 0
+        for i, node in enumerate(nodes):
+            best = max(best, S - i + 1 + before)
+            before += children.get(node, 0)
+        best = max(best, T + 1)
+    return best
+
+
+def _offset_width_edge(tables, V, sos):
+    """True when the table is in the class described at ENABLE_OFFSET_WIDTH_EDGE."""
+    n = len(tables)
+    if n < 2:
+        return False
+    mapped = lambda k: tuple(V if (t == sos and not 0 <= sos < V) else t for t in k)
+    keys = [set(mapped(k) for k in t) for t in tables]
+    for m in range(n - 1, 0, -1):
+        for k in keys[m]:
+            keys[m - 1].add(k[1:])
+    keys[0] = set((s,) for s in range(V + (0 if 0 <= sos < V else 1)))
+    for m in range(1, n):
+        S, T = len(keys[m - 1]), len(keys[m])
+        if S + T - 1 in (255, 32767):
+            first = min(k[::-1] for k in keys[m - 1])
+            under_first = sum(1 for k in keys[m] if k[1:][::-1] == first)
+            if T == 1 or (S >= 2 and under_first == T):
+                return True
+    return False
+
+
+@st.composite
+def _large_case(draw, tier, which):
+    """One dimension is taken through the sizes of KIND_SIZES *inside one case* (so every run meets every
+    threshold): sequence length and batch as prefixes of one long batch of histories, vocabulary / trie
+    fan-out / table sizes by building one model per size from the same table recipe.  Tables and
+    histories are expanded deterministically from the few integers of the case (K.build_tables "gen",
+    _large_history); `sizes` lists the sizes tried (normally all of the kind's)."""
+    big = tier == "thorough"
+    sos_kind = draw(st.sampled_from(["in", "V", "-1"]))
+    n = draw(st.sampled_from([2, 3, 2, 4]))
+    V, T, B = draw(st.integers(2, 5)), draw(st.integers(0, 4)), draw(st.integers(1, 3))
+    all_sizes = list(KIND_SIZES[which])
+    if ENABLE_OFFSET_WIDTH_EDGE and which in ("offsets16", "offsets32"):
+        # ("e0" at 32767 would need a node with > 16000 direct descendants: gigabytes in the lookup)
+        all_sizes += ["e1", "e0"] if which == "offsets16" else ["e1"]
+    if which == "T":
+        if big:
+            all_sizes = all_sizes + [4097, 8193]
+        B = draw(st.sampled_from([1, 2]))
+    elif which in ("V", "ids8", "fan"):
+        n = draw(st.sampled_from([2, 3] + ([1] if ENABLE_UNIGRAM_WIDE_VOCAB and which != "fan" else [])))
+        T, B = min(T, 3), min(B, 2)
+    elif which == "ids16":
+        n, T, B = 2, draw(st.integers(1, 2)), 1
+    elif which == "offsets16":
+        V = draw(st.integers(17, 24))
+        n = draw(st.sampled_from([2, 3]))
+    elif which == "offsets32":
+        V = draw(st.integers(182, 190))
+        n, T, B = 2, min(T, 3), min(B, 2)
+    from ..gen import weighted
+    sizes = draw(weighted((1, st.lists(st.sampled_from(all_sizes), min_size=1, max_size=4, unique=True)),
+                          (9, st.just(all_sizes))))
+    tables = []
+    for m in range(1, n + 1):
+        if m == 1:
+            # (nearly) every unigram listed
+            tables.append({"excluded": draw(st.lists(st.integers(0, 40), max_size=3, unique=True)),
+                           "a": draw(st.integers(1, 64)), "b": draw(st.integers(0, 64)), "c": draw(st.integers(0, 64)),
+                           "inf_mod": draw(st.sampled_from([0, 0, 7, 13])), "keep_mod": 1, "keep_lt": 1, "count": None})
+            continue
+        tables.append({"gen": draw(st.integers(1, 60)), "a": draw(st.sampled_from([1, 7, 11, 13, 101, 7919])),
+                       "b": draw(st.integers(0, 1000)), "c": draw(st.integers(0, 64)),
+                       "inf_mod": draw(st.sampled_from([0, 0, 7, 13])), "fan": None})
+    case = {
+        "which": which, "sizes": sizes, "V": V, "sos_kind": sos_kind, "sos_pos": draw(st.integers(0, 10000)),
+        "tables": tables, "T": T, "B": B,
+        "fan": [draw(st.integers(0, 300)), draw(st.sampled_from([1, 0, -1]))],   # (symbol, fan-out - V)
+        "h": [draw(st.integers(1, 97)), draw(st.integers(0, 50)), draw(st.sampled_from([7, 11, 13, 17]))],
+        "period": draw(st.sampled_from([3, 5, 8, 13])),
+        "chunks": draw(st.lists(st.sampled_from([2, 3, 15, 16, 17, 64, 255, 256, 257, 1024, 1025, "T-1", "T", "T+1", "T+2"]),
+                                min_size=2, max_size=3, unique=True)),
+        "positions": draw(st.lists(st.integers(0, 10000), min_size=2, max_size=2)),
+        "idx": [draw(st.integers(1, 97)), draw(st.integers(0, 10000))],
+    }
+    case.update(draw(_variants()))
+    return case
+
+
+def _large_history(case, tables, V, sos, T, B):
+    """(B, T) histories: an arithmetic pattern over the vocabulary with a listed top-order n-gram written
+    over it every `period` positions (so that both hits and back-offs occur all along the sequence)."""
+    ha, hb, hm = case["h"]
+    rows = [[(ha * t + hb * b + (t * t) % hm) % V for t in range(T)] for b in range(B)]
+    n = len(tables)
+    keys = sorted(tables[-1])
+    period = max(case["period"], n)
+    for b in range(B):
+        for j, t0 in enumerate(range(b % period, T, period)):
+            key = keys[(j + 3 * b) % len(keys)]
+            for i, tok in enumerate(key[:-1]):
+                if t0 + i < T and (0 <= tok < V or tok == sos):
+                    rows[b][t0 + i] = tok
+    return rows
+
+
+def _large_one(case, V, T, B, spec, t_prefixes=(), b_prefixes=()):
+    """One table / one batch of the large sub-check.  Returns (classes, trace) or None when the table is
+    in a class that is switched off."""
+    sk = case["sos_kind"]
+    sos = case["sos_pos"] % V if sk == "in" else (V if sk == "V" else -1)
+    symbols = _symbols(V, sos)
+    tables = K.build_tables(spec, symbols, 2.0 ** case.get("scale_exp", 0))
+    n = len(tables)
+    classes = []
+    if n == 1 and V > 256:
+        if not ENABLE_UNIGRAM_WIDE_VOCAB:
+            return None
+        classes.append("unigram_table_over_256_ids")
+    if _offset_width_edge(tables, V, sos):
+        if not ENABLE_OFFSET_WIDTH_EDGE:
+            return None
+        classes.append("offset_width_edge")
+    hist_b = _large_history(case, tables, V, sos, T, B)
+    if case.get("layout") == "expanded":
+        hist_b = [list(hist_b[0]) for _ in hist_b]
+    chunks = sorted({max(1, {"T-1": T - 1, "T": T, "T+1": T + 1, "T+2": T + 2}.get(c, c)) for c in case["chunks"]})
+    if T > 300:
+        chunks = sorted({max(c, 15) for c in chunks})   # (small chunks of short sequences: sub-check katz)
+    # scalar indices: a sample (ends, around the context width, the middle, two generated ones)
+    positions = sorted({p for p in [0, 1, n - 2, n - 1, n, T // 2, T - 1, T] + [q % (T + 1) for q in case["positions"]]
+                        if 0 <= p <= T})
+    ia, ib = case["idx"]
+    idx = [(ia * b + ib) % (T + 1) for b in range(B)]
+    cl, trace = _run_queries(case, V, sos, tables, hist_b, chunks, positions, idx, t_prefixes, b_prefixes)
+    return classes + cl, trace
+
+
+def _large_check(case):
+    which, sizes = case["which"], list(case["sizes"])
+    V, T, B = case["V"], case["T"], case["B"]
+    spec = [dict(t) for t in case["tables"]]
+    n = len(spec)
+    classes, trace, done = set(), set(), 0
+
+    def run(label, *args, **kw):
+        nonlocal done
+        r = _large_one(case, *args, **kw)
+        if r is None:
+            classes.add("skipped_class_switched_off")
+            return
+        classes.update(r[0])
+        trace.update(r[1])
+        classes.add(label)
+        done += 1
+
+    if which == "T":       # the longest history once, then every other length as a prefix of it
+        Tm = max(sizes)
+        run("T=%d" % Tm, V, Tm, B, spec, t_prefixes=[t for t in sizes if t != Tm])
+        classes.update("T=%d" % t for t in sizes)
+    elif which == "B":
+        Bm = max(sizes)
+        run("B=%d" % Bm, V, T, Bm, spec, b_prefixes=[b for b in sizes if b != Bm])
+        classes.update("B=%d" % b for b in sizes)
+    elif which in ("V", "ids8", "ids16"):
+        for v in sizes:
+            run("V=%d" % v, v, T, B, spec)
+    elif which == "fan":   # the bigrams (x, w0) for the first k symbols x: node w0 has k direct descendants
+        for v in sizes:
+            k = max(1, v + case["fan"][1])
+            sp = [dict(t) for t in spec]
+            sp[1]["fan"] = [case["fan"][0], k]
+            run("fan_out_%d" % k, v, T, B, sp)
+            classes.add("fan_out_V+1" if k > v else "fan_out_<=V")
+    else:                  # a run of consecutive bigram indices of exactly the wanted length
+        limit = 255 if which == "offsets16" else 32767
+        sk = case["sos_kind"]
+        sos = case["sos_pos"] % V if sk == "in" else (V if sk == "V" else -1)
+        symbols = _symbols(V, sos)
+        base = len(symbols)
+        for size in sizes:
+            if size[0] == "e":
+                # the directed tables of ENABLE_OFFSET_WIDTH_EDGE (their own vocabulary size)
+                shift = 0 if sk == "in" else 1
+                if size == "e1":
+                    Ve, count, a = limit - shift, 1, 1
+                else:
+                    Ve = (120 + 16 * (V - 17) if which == "offsets16" else 20000 + V) - shift
+                    count, a = limit + 1 - (Ve + shift), Ve + shift
+                sp = [dict(t) for t in spec[:2]]
+                sp[1] = dict(sp[1], gen=count, a=a, b=0 if size == "e0" else sp[1]["b"], fan=None)
+                run("edge_" + size, Ve, T, B, sp)
+                continue
+            delta = int(size[1:])
+            sp = [dict(t) for t in spec]
+            count = limit + 1 - base + delta
+            sp[1] = dict(sp[1], gen=count, a=1, fan=None)
+            if size[0] == "f":
+                # the count at which the largest stored offset reaches limit + delta (it grows with the count)
+                for count in range(max(1, count - 2), min(base * base, count + 8 * base)):
+                    sp[1]["gen"] = count
+                    if _max_offset(K.build_tables(sp, symbols), V, sos) >= limit + delta:
+                        break
+                if _max_offset(K.build_tables(sp, symbols), V, sos) != limit + delta:
+                    classes.add("no_table_with_largest_offset_%d%+d" % (limit, delta))
+                    continue
+                run("largest_offset=%d%+d" % (limit, delta), V, T, B, sp)
+            else:
+                run("bigrams+unigrams-1=%d%+d" % (limit, delta), V, T, B, sp)
+    if not done:
+        raise Reject()
+    classes.update(["large_" + which, "order_%d" % n, "sos_" + case["sos_kind"]])
+    if case.get("scale_exp", 0):
+        classes.add("values_scaled_up" if case["scale_exp"] > 0 else "values_scaled_down")
+    classes.discard("hit_top")
+    return Info(nontrivial="missing_entry" in trace and "hit_top" in trace, classes=sorted(classes))
+
+
+_LARGE_DOC = ("; tables and histories expanded deterministically from a few integers; full / sampled chunk sizes / "
+              "sampled scalar idx / per-element idx / reloaded == dictionary recursion (exact); memory layouts, junk "
+              "ids, scaled values and call patterns as in katz")
+_LARGE = [
+    # (kind, quick, thorough, doc, required classes)
+    ("T", 5, 60, "sequence lengths 15..2049 (thorough: ..8193): the longest history and every other length as a prefix of it",
+     ["T=15", "T=16", "T=17", "T=1023", "T=1024", "T=1025", "T=2049"]),
+    ("B", 6, 100, "batch sizes 15..2049: the widest batch and every other size as a column prefix of it",
+     ["B=15", "B=16", "B=17", "B=1023", "B=1024", "B=1025", "B=2049"]),
+    ("V", 6, 100, "vocabulary sizes 15..1025, one model per size from the same table recipe",
+     ["V=15", "V=16", "V=17", "V=255", "V=256", "V=257", "V=1023", "V=1024", "V=1025", "ids_uint8", "ids_int16"]),
+    ("ids8", 6, 100, "vocabulary sizes 252..258: the id buffer leaves uint8 when V + (sos outside the vocabulary) + 1 > 255",
+     ["V=252", "V=253", "V=254", "V=255", "V=256", "V=257", "V=258", "ids_uint8", "ids_int16", "sos_in", "sos_V"]),
+    ("ids16", 3, 30, "vocabulary sizes 32765..32767: the id buffer and the final offset buffer leave int16",
+     ["ids_int16", "ids_int32", "offsets_int16", "offsets_int32"]),
+    ("fan", 6, 100, "one trie node with 15..258 direct descendants (V 16..257, bigrams (x, w0) for V-1 / V / V+1 symbols x)",
+     ["fan_out_V+1", "fan_out_<=V"]),
+    ("offsets16", 8, 150, "(#bigrams + #unigrams - 1) = 253..257 (width chosen while building) and largest stored offset "
+     "254..257 (final width): the offset buffer leaves uint8",
+     ["offsets_uint8", "offsets_int16", "bigrams+unigrams-1=255+0", "bigrams+unigrams-1=255+1", "bigrams+unigrams-1=255-1",
+      "largest_offset=255+0", "largest_offset=255+1"]),
+    ("offsets32", 3, 30, "(#bigrams + #unigrams - 1) = 32766..32769: the offset buffer is built with 32-bit integers",
+     ["bigrams+unigrams-1=32767+0", "bigrams+unigrams-1=32767+1"]),
+]
+for _kind, _q, _t, _doc, _req in _LARGE:
+    subcheck("C06", "katz_large_" + _kind, (lambda tier, _k=_kind: _large_case(tier, _k)), _q, _t,
+             doc=_doc + _LARGE_DOC, required_classes=_req)(_large_check)
+
+
 # ------------------------------------------------------------------ ARPA
 
 # characters a token may contain (no whitespace); tokens that look like numbers are wanted
 _TOKEN_ALPHABET = "abcXYZ019<>/\\_-.'#:=%"
+# letters outside ASCII (no character that str.split() treats as white space); files are UTF-8, which is
+# also this image's default text encoding (the library opens paths with the default)
+_TOKEN_ALPHABET_WIDE = _TOKEN_ALPHABET + "\u00e9\u00df\u0416\u4e2d\u6587\U0001f600"
 
 
 def _arpa_strategy(tier):
@@ -299,6 +773,7 @@ def _arpa_strategy(tier):
         nv = draw(st.integers(1, 5))
         vocab = draw(st.lists(
             st.one_of(st.text(_TOKEN_ALPHABET, min_size=1, max_size=5),
+                      st.text(_TOKEN_ALPHABET_WIDE, min_size=1, max_size=5),
                       st.sampled_from(["<s>", "</s>", "<unk>", "1", "-1.5", "2e3", "\\data\\", "ngram", "0.5"])),
             min_size=nv, max_size=nv, unique=True))
         tables = []
@@ -307,7 +782,8 @@ def _arpa_strategy(tier):
             last = m == n
             ents = draw(st.lists(
                 st.tuples(st.integers(0, total - 1), st.integers(-800, 80), st.integers(-160, 160),
-                          st.sampled_from(["%.3f", "%.2f", "%.1f", "%g", "%.6f", "%e", "%d"]),
+                          st.sampled_from(["%.3f", "%.2f", "%.1f", "%g", "%.6f", "%e", "%d", "%E", "%.2E", "x1e-30",
+                                           "x1e25", "x1E200"]),
                           st.sampled_from([False, False, True])),  # last: omit the back-off if unambiguous
                 min_size=1 if last else 0, max_size=min(total, 8), unique_by=lambda e: e[0]))
             tables.append([list(e) for e in ents])
@@ -335,8 +811,11 @@ def _num_text(k, fmt, q):
     x = k / q
     if fmt == "%d":
         return "%d" % int(x)
+    if fmt.startswith("x"):
+        # an extreme magnitude: <k/q with three decimals> followed by a power of ten
+        return "%.3f" % x + fmt[2:]
     s = fmt % x
-    return s.replace("e+", "e")  # the documented pattern has no '+' in exponents
+    return s.replace("e+", "e").replace("E+", "E")  # the documented pattern has no '+' in exponents
 
 
 def _arpa_check(case):
@@ -400,7 +879,7 @@ def _arpa_check(case):
     tmp = tempfile.mkdtemp(prefix="vf_")
     try:
         path = os.path.join(tmp, "lm.arpa")
-        with open(path, "w") as f:
+        with open(path, "w", encoding="utf-8") as f:
             f.write(text)
         with warnings.catch_warnings():
             warnings.simplefilter("ignore")
@@ -410,7 +889,7 @@ def _arpa_check(case):
                     exp = want(as_ids, base_e)
                     got = parse_arpa_lm(path, t2i, base_e)
                     same(got, exp, base_e, "parse_arpa_lm(path, ids=%s, to_base_e=%s)" % (as_ids, base_e))
-                    with open(path) as f:
+                    with open(path, encoding="utf-8") as f:
                         got = parse_arpa_lm(f, t2i, base_e)
                     same(got, exp, base_e, "parse_arpa_lm(file, ids=%s, to_base_e=%s)" % (as_ids, base_e))
                     got = parse_arpa_lm(io.StringIO(text), t2i, base_e)
@@ -426,6 +905,12 @@ def _arpa_check(case):
         classes.append("implicit_backoff")
     if any("e" in r[0] for rows in text_tables for r in rows):
         classes.append("exponent_notation")
+    if any("E" in r[0] for rows in text_tables for r in rows):
+        classes.append("capital_E_exponent")
+    if any(abs(float(r[0])) > 1e20 or 0 < abs(float(r[0])) < 1e-20 for rows in text_tables for r in rows):
+        classes.append("extreme_magnitude")
+    if any(ord(ch) > 127 for tok in vocab for ch in tok):
+        classes.append("non_ascii_token")
     nontrivial = n >= 2 and sum(len(t) for t in case["tables"]) >= 3
     return Info(nontrivial=nontrivial, classes=classes)
 
@@ -433,4 +918,114 @@ def _arpa_check(case):
 subcheck("C06", "arpa", _arpa_strategy, 500, 10000,
          doc="harness-written ARPA text (explicit back-offs, odd tokens, several number formats) parsed from path / "
              "file / StringIO, with and without token2id: entries == written (base 10 exact, base e 1e-12)",
-         required_classes=["numeric_looking_token", "empty_lower_order", "implicit_backoff", "exponent_notation"])(_arpa_check)
+         required_classes=["numeric_looking_token", "empty_lower_order", "implicit_backoff", "exponent_notation",
+                           "capital_E_exponent", "extreme_magnitude", "non_ascii_token"])(_arpa_check)
+
+
+# ------------------------------------------------------------------ large ARPA files
+
+
+@st.composite
+def _arpa_large_case(draw, tier):
+    """Entry counts, vocabulary sizes and token lengths through SIZES; the file is expanded from a few integers."""
+    n = draw(st.sampled_from([2, 1, 3]))
+    from ..gen import weighted
+    return {
+        "n": n,
+        "counts": draw(weighted((1, st.lists(st.sampled_from(SIZES), min_size=1, max_size=3, unique=True)), (6, st.just(SIZES)))),
+        "a": draw(st.sampled_from([1, 7, 11, 13, 101, 7919])), "b": draw(st.integers(0, 1000)),
+        "c": draw(st.integers(1, 64)),
+        "fmt": draw(st.sampled_from(["%.3f", "%g", "%e", "%.2E"])),
+        "token_len": draw(st.sampled_from(SIZES)),
+        "style": draw(st.fixed_dictionaries({
+            "tabs": st.booleans(), "preamble": st.booleans(), "count_spaces": st.booleans(),
+            "blank_between": st.booleans()})),
+        "base_e": draw(st.booleans()), "as_ids": draw(st.booleans()),
+        "route": draw(st.sampled_from(["path", "file", "stringio"])),
+    }
+
+
+def _arpa_large_check(case):
+    import warnings
+
+    from pydrobert.torch.data import parse_arpa_lm
+
+    n, fmt = case["n"], case["fmt"]
+    ln10 = math.log(10.0)
+    classes = set()
+    tmp = tempfile.mkdtemp(prefix="vf_")
+    try:
+        for count in case["counts"]:
+            # `count` entries in every order over a vocabulary of `count` tokens; token 0 is very long
+            vocab = ["w%d" % i for i in range(count)]
+            vocab[0] = "L" + "o" * (case["token_len"] - 2) + "g"
+            token2id = {tok: (i * 7 + 3) % count if math.gcd(7, count) == 1 else i for i, tok in enumerate(vocab)}
+            text_tables, expected = [], []
+            for m in range(1, n + 1):
+                last = m == n
+                rows, exp = [], {}
+                for j in range(count):
+                    index = (j * case["a"] + case["b"]) % count ** m if m > 1 else j
+                    toks = tuple(vocab[i] for i in K.index_to_tuple(index, m, count))
+                    if toks in exp:
+                        continue
+                    ptxt = _num_text(-((j * case["c"]) % 801), fmt, 8)
+                    btxt = None if last or (j % 5 == 0) else _num_text(((j * case["a"]) % 321) - 160, fmt, 8)
+                    rows.append((ptxt, list(toks), btxt))
+                    exp[toks] = float(ptxt) if last else (float(ptxt), 0.0 if btxt is None else float(btxt))
+                text_tables.append(rows)
+                expected.append(exp)
+            text = K.write_arpa(text_tables, case["style"])
+            base_e, as_ids = case["base_e"], case["as_ids"]
+            want = []
+            for m, exp in enumerate(expected, start=1):
+                d = {}
+                for key, v in exp.items():
+                    k = tuple(token2id[t] for t in key) if as_ids else key
+                    if m == 1:
+                        k = k[0]
+                    if base_e:
+                        v = v * ln10 if m == n else (v[0] * ln10, v[1] * ln10)
+                    d[k] = v
+                want.append(d)
+            t2i = token2id if as_ids else None
+            with warnings.catch_warnings():
+                warnings.simplefilter("ignore")
+                if case["route"] == "stringio":
+                    got = parse_arpa_lm(io.StringIO(text), t2i, base_e)
+                else:
+                    path = os.path.join(tmp, "lm%d.arpa" % count)
+                    with open(path, "w", encoding="utf-8") as f:
+                        f.write(text)
+                    if case["route"] == "path":
+                        got = parse_arpa_lm(path, t2i, base_e)
+                    else:
+                        with open(path, encoding="utf-8") as f:
+                            got = parse_arpa_lm(f, t2i, base_e)
+            what = "parse_arpa_lm(%s, %d entries per order, ids=%s, to_base_e=%s)" % (case["route"], count, as_ids, base_e)
+            require(isinstance(got, list) and len(got) == n, what + ": number of orders", len(got), n)
+            for m, (g, e) in enumerate(zip(got, want), start=1):
+                if set(g.keys()) != set(e.keys()):
+                    miss = sorted(map(repr, set(e) - set(g)))[:5]
+                    extra = sorted(map(repr, set(g) - set(e)))[:5]
+                    require(False, "%s: %d-gram keys (%d read, %d written)" % (what, m, len(g), len(e)), extra, miss)
+                for k, ev in e.items():
+                    gv = g[k]
+                    gl = [gv] if m == n else list(gv)
+                    el = [ev] if m == n else list(ev)
+                    require(len(gl) == len(el), "%s: entry %r has the wrong arity" % (what, k), gv, ev)
+                    for x, y in zip(gl, el):
+                        ok = (x == y) if not base_e else abs(x - y) <= 1e-12 * max(abs(x), abs(y))
+                        require(ok, "%s: entry %r" % (what, k), gv, ev)
+            classes.add("entries=%d" % count)
+    finally:
+        shutil.rmtree(tmp, ignore_errors=True)
+    classes.update(["order_%d" % n, case["route"], "token_len=%d" % case["token_len"]])
+    return Info(nontrivial=n >= 2, classes=sorted(classes))
+
+
+subcheck("C06", "arpa_large", _arpa_large_case, 10, 200,
+         doc="ARPA files with 15..2049 entries per order over as many tokens, one token of 15..2049 characters, expanded "
+             "from a few integers; every size inside each case: entries == written (base 10 exact, base e 1e-12)",
+         required_classes=["entries=15", "entries=16", "entries=17", "entries=1023", "entries=1024", "entries=1025",
+                           "entries=2049"])(_arpa_large_check)
